@@ -5,19 +5,25 @@ var propRules = map[string][]ruleSpec{
 	"C07": {
 		{"R9", "user axes validated (R9a) and normalised (R9b)", ruleR9},
 		{"R3", "clone before Reshape (E2)", ruleR3},
+		{"R20", "Data() passes the scalar wrapper before slice assertions", ruleR20Scalar},
 	},
 	"C08": {
 		{"R9", "user axes/indices validated (R9a) and normalised (R9b)", ruleR9},
 		{"R10", "Repeat only as a guarded stretch", ruleR10},
 		{"R3", "operands not modified (E2)", ruleR3},
+		{"R19", "Slice restores the rank gorgonia drops", ruleR19},
+		{"R20", "Data() passes the scalar wrapper before slice assertions", ruleR20Scalar},
 	},
 	"C09": {
 		{"R9", "requested axes normalised before reaching gorgonia (R9b; R9a as notes)", ruleR9},
 		{"R3", "operands not modified (E2)", ruleR3},
+		{"R20", "keepdims <=> reshape; ArgMax int64", ruleR20Keepdims},
+		{"R20s", "Data() passes the scalar wrapper before slice assertions", ruleR20Scalar},
 	},
 	"C14": {
 		{"R10", "Repeat only as a guarded stretch", ruleR10},
 		{"R3", "sources never modified (E2)", ruleR3},
+		{"R20", "unidirectional rank rule, first operand as is, ones prepended, rank equalisation", ruleR20Broadcast},
 	},
 	"C18": {
 		{"R15", "load path is panic-free", ruleR15},
@@ -42,10 +48,14 @@ var propRules = map[string][]ruleSpec{
 	"C02": {
 		{"R3", "borrowed tensors / shared storage never mutated (E2)", ruleR3},
 		{"R1", "no package-level state written after init", ruleR1},
+		{"R5", "operators private to one node of one Run (M4), environment private (M2), Model immutable (M13)", ruleR5},
+		{"R2", "constructors return new operators", ruleR2},
 	},
 	"C17": {
 		{"R3", "shared storage (weights, protobuf) never written (E2)", ruleR3},
 		{"R1", "no package-level state written; no goroutines/locks/unsafe", ruleR1},
+		{"R5", "operators private to one node of one Run (M4), environment private (M2), Model immutable (M13)", ruleR5},
+		{"R2", "constructors return new operators", ruleR2},
 	},
 	"C15": {
 		{"R6", "operator gate tables T1-T8 (exhaustive over the registry)", ruleR6},
@@ -60,6 +70,22 @@ var contractBase = []string{
 }
 
 var propDocs = map[string]propDoc{
+	"C07": {
+		Explanation: "R9 (forward taint from the frozen axis-source table: Flatten.axis, Squeeze inputs[1], Unsqueeze inputs[1]): R9a every Go-level use (index, slice bound, selection against a dimension index) of the user value is dominated by a rejecting lower AND upper bound on a value of the same taint set - at the use, at every call site passing the tainted value, on the tainted edges of a merge, or on the err==nil edge of a library callee that validates on every success return; ops.AllInRange-style checkers count two-sided unless a bound is an extreme constant. R9b the value used derives from `x + rank` computed under `x < 0`. R9c axis sets are sorted and a duplicate returns an error. R3 (E2) clone-before-Reshape: no Reshape on borrowed storage in the five operators. R20 a Data() value asserted to a slice type passes the scalar wrapper first. NOT decided: gorgonia's Reshape contract (row-major order kept, count mismatch rejected), processShape's -1 arithmetic.",
+		Assumptions: contractBase,
+	},
+	"C08": {
+		Explanation: "R9a/R9b as for C07 over the sources Concat.axis, Gather.axis, Gather inputs[1] (index data), Slice inputs[3], Transpose.perm (perm is exempt from R9b: no negative spelling), with axis contracts for gorgonia callees (Concat validates both sides, Transpose validates permutations, Slice/At validate ranges; a validating callee only counts when its error is handled). R10 every tensor.Repeat reachable from Expand.Apply is dominated by extent==1 of the repeated tensor at the repeated axis. R19 the view returned by Tensor.Slice is reshaped before Slice.Apply returns it. R20 Data() passes the scalar wrapper before slice assertions. R3 operands not modified. NOT decided: ONNX index formulas, clamping, negative steps, data movement inside gorgonia.",
+		Assumptions: contractBase,
+	},
+	"C09": {
+		Explanation: "R9b over ArgMax.axis, ReduceMax.axes, ReduceMin.axes, Softmax.axis, LogSoftmax.axis with per-callee contracts (SoftMax/LogSoftMax resolve negative axes themselves; Argmax/Max/Min do not and treat -1 as all axes); R9a instances are notes. R20: the Reshape re-inserting reduced axes is control-dependent on the keepdims field (how the int64 attribute becomes the bool is not pinned); ArgMax's result backing is []int64; Data() of the reduced result passes the scalar wrapper. R3 operands not modified. NOT decided: softmax numerics, ties/NaN in ArgMax, 'all axes when none given'.",
+		Assumptions: contractBase,
+	},
+	"C14": {
+		Explanation: "R10: each tensor.Repeat(t, axis, n) in package ops is dominated by an edge implying Shape(t')[axis] == 1 for t' phi-connected to t with the same axis value. R20: UnidirectionalBroadcast returns its first parameter (or an unmodified clone) as first result; its rank step succeeds only under rank(A) >= rank(B); AddExtraDimsToTensor's new shape is ones followed by the original shape; ReshapeTensorsForMultidirBroadcast pads the lower-rank operand by the rank difference in both directions. R3 (E2): no mutation site reachable from the exported helpers writes borrowed storage. NOT decided: element placement of gorgonia's Repeat.",
+		Assumptions: contractBase,
+	},
 	"C01": {
 		Explanation: "Rules over the interpreter (model.go, opset.go, registry), anchors found by role: M2 the environment map is made per Run and does not escape; M3 caller inputs take precedence over initializers (store ordering / miss guard); M4 per node the operator is the direct result of getter(node.GetOpType()) in the same iteration, its error returns, the node loop visits every node and no iteration skips the application; M5 Init(n) -> gather(n.GetInput(), env) -> ValidateInputs(gathered) -> Apply(validated) -> bind(n.GetOutput(), results, env), each stage fed by the previous one, every error returned; M6 gather: exactly one append per name, \"\" => nil, present => comma-ok entry, absent => error; M7 bind: rejecting length check, env[names[i]] = results[i] same i, all i; M8 result map is fresh, keys from OutputNames(), values non-nil-checked with an error otherwise; M9 no error result dropped in package gonnx; M13 Model fields written only by the constructor; R2 registry constructors return new values, getter hit/miss paths; R4 node output names flow only into len(); R1 no package-level state written. NOT decided: operator values (C03-C11), equality with an independent evaluator.",
 		Assumptions: []string{"go/types + go/ssa model the program faithfully", "the rules recognise today's factoring by role; if a role has no bearer the obligation is violated (property needs it) or undecided (only the rule's factoring assumption is gone)"},
